@@ -227,6 +227,15 @@ IView == <<mask, deps, heap, blocks, call, ncalls, pc, taint, res, stuck>>
 ShapeOf(log) == [i \in 1..Len(log) |-> <<log[i].e, IF log[i].e \in {"Memzero", "Free", "Alloc"} THEN (IF log[i].blk >= 1 THEN "block" ELSE IF log[i].blk = 0 THEN "null" ELSE "stack") ELSE "-">>]
 EmitShapes == (pc = "ret" /\ ~stuck) => PrintT(<<"SHAPE", call.op, res, ShapeOf(call.log)>>)
 
+\* Termination (C14: "each API call terminates"), design level: under weak fairness of the implementation's
+\* steps every call that has begun reaches its return (or is refused by the contract, which Conforms excludes).
+\* Checked WITHOUT the view (PolyseedImpl_live.cfg): with the history in the state the graph of a call is what
+\* the steps make it, so a step that loops back (a retry, a re-scan) would be a non-progress cycle here.
+ILive == ISpec /\ WF_ivars(INext)
+EveryCallReturns == (pc # "idle") ~> (pc = "idle" \/ stuck)
+\* ... and no step inside a call can be left without a successor (safety half, checked with the invariants)
+NoDeadEnd == (pc # "idle" /\ ~stuck) => ENABLED INext
+
 Conforms == ~stuck
 ReturnsClean == pc = "ret" => taint = {}
 PcConsistent == (pc = "idle") <=> (call = None)
